@@ -29,7 +29,24 @@
 #include "common.h"
 #include "alloc.h"
 
+#include <atomic>
+#include <chrono>
+#include <thread>
+
 using namespace vg;
+
+// Watchdog for the threaded coders: a lzma_code()/initialiser call that does not return within 60 s on a workload
+// of a few KiB is a hang (libFuzzer's own -timeout would only say "timeout" after 20 minutes).
+static std::atomic<int64_t> g_call_started{0};   // steady-clock ms when the guarded call began, 0: none
+static std::atomic<bool> g_wd_running{false};
+static std::atomic<const char *> g_wd_sig{"C11:mt-hang"};
+static int64_t now_ms() { return std::chrono::duration_cast<std::chrono::milliseconds>(std::chrono::steady_clock::now().time_since_epoch()).count() + 1; }
+static void watchdog_main() {
+	for (;;) { std::this_thread::sleep_for(std::chrono::milliseconds(250)); int64_t t = g_call_started.load();
+		if (t && now_ms() - t > 60000) violation(g_wd_sig.load(), "a call on a threaded coder did not return within 60 s (all worker threads idle or lost?)"); }
+}
+struct Guarded { bool on; explicit Guarded(bool threaded) : on(threaded) { if (!on) return; if (!g_wd_running.exchange(true)) std::thread(watchdog_main).detach(); g_call_started.store(now_ms()); }
+	~Guarded() { if (on) g_call_started.store(0); } };
 
 static va::Alloc *g_alp;
 static const lzma_allocator *AL() { if (!g_alp) { g_alp = new va::Alloc(); g_alp->cap = 96u << 20; g_alp->poison = false; } return &g_alp->a; }
@@ -213,7 +230,7 @@ struct Model {
 	bool after_buf_error = false;
 };
 
-struct CallSpec { int action = 0; size_t avail_in = 0, avail_out = 0; bool null_in = false, null_out = false, null_zero = false; int reserved = -1; const char *what = "code"; };
+struct CallSpec { int action = 0; size_t avail_in = 0, avail_out = 0; bool null_in = false, null_out = false, null_zero_in = false, null_zero_out = false; int reserved = -1; const char *what = "code"; };
 struct Obs { lzma_ret ret = LZMA_OK; size_t d_in = 0, d_out = 0; bool unchanged = true; uint64_t seek_pos = 0; };
 
 struct Harness {
@@ -242,8 +259,8 @@ static Obs do_call(Harness &h, const CallSpec &cs) {
 	for (size_t i = 0; i < cs.avail_out; ++i) obase[G + i] = pat(i + 17);
 	uint8_t *icopy = (uint8_t *)malloc(in_tot ? in_tot : 1); if (!icopy) harness_bug("out of memory"); if (in_tot) memcpy(icopy, ibase, in_tot);
 	uint8_t *ip = ibase + G, *op = obase + G;
-	s.next_in = cs.null_in ? NULL : ((cs.avail_in == 0 && cs.null_zero) ? NULL : ip); s.avail_in = cs.avail_in;
-	s.next_out = cs.null_out ? NULL : ((cs.avail_out == 0 && cs.null_zero) ? NULL : op); s.avail_out = cs.avail_out;
+	s.next_in = cs.null_in ? NULL : ((cs.avail_in == 0 && cs.null_zero_in) ? NULL : ip); s.avail_in = cs.avail_in;
+	s.next_out = cs.null_out ? NULL : ((cs.avail_out == 0 && cs.null_zero_out) ? NULL : op); s.avail_out = cs.avail_out;
 	static int dummy_target;
 	switch (cs.reserved) { case 0: s.reserved_ptr1 = &dummy_target; break; case 1: s.reserved_ptr2 = &dummy_target; break; case 2: s.reserved_ptr3 = &dummy_target; break; case 3: s.reserved_ptr4 = &dummy_target; break;
 		case 4: s.reserved_int2 = 1; break; case 5: s.reserved_int3 = 1; break; case 6: s.reserved_int4 = 1u << 20; break;
@@ -252,7 +269,7 @@ static Obs do_call(Harness &h, const CallSpec &cs) {
 	const uint8_t *nin0 = s.next_in; uint8_t *nout0 = s.next_out; const uint64_t tin0 = s.total_in, tout0 = s.total_out;
 	{ lzma_stream t; memcpy(&t, &s, sizeof t); t.seek_pos = 0; memcpy(before, &t, sizeof t); }
 	volatile int av = cs.action;
-	o.ret = lzma_code(&s, (lzma_action)av);
+	{ Guarded wd(w.kind == K_MT_ENC || w.kind == K_MT_DEC); o.ret = lzma_code(&s, (lzma_action)av); }
 	++h.calls;
 	{ lzma_stream t; memcpy(&t, &s, sizeof t); o.seek_pos = t.seek_pos; t.seek_pos = 0; memcpy(after, &t, sizeof t); }
 	o.unchanged = memcmp(before, after, sizeof before) == 0;
@@ -411,8 +428,9 @@ static void verify_end(Harness &h) {
 // ------------------------------------------------------------------------------------------ history
 static bool do_init(Harness &h, const char *how) {
 	Work &w = h.w;
-	lzma_ret r = init_handle(w, &h.s);
+	lzma_ret r; { Guarded wd(w.kind == K_MT_ENC || w.kind == K_MT_DEC); r = init_handle(w, &h.s); }
 	h.log += std::string(",\"") + how + "\""; g_stats.current = h.base_desc + h.log;
+	if (g_verbose) fprintf(stderr, "    %s -> %s\n", how, drv::retname(r));
 	h.hhash = hcomb(h.hhash, 0x1111);
 	if (r == LZMA_MEM_ERROR) { count("environment_alloc_cap"); return false; }
 	if (r != LZMA_OK) harness_bug("initialiser of %s returned %s", kind_names[w.kind], drv::retname(r));
@@ -425,7 +443,7 @@ static bool do_init(Harness &h, const char *how) {
 static void one_call(Harness &h, const CallSpec &cs) {
 	char b[160]; snprintf(b, sizeof b, ",[\"%s\",%d,%zu,%zu%s%s%s]", cs.what, cs.action, cs.avail_in, cs.avail_out, cs.null_in ? ",\"in=NULL\"" : "", cs.null_out ? ",\"out=NULL\"" : "", cs.reserved >= 0 ? ",\"reserved\"" : "");
 	h.log += b; g_stats.current = h.base_desc + h.log;
-	h.hhash = hcomb(h.hhash, hcomb(hcomb((uint64_t)(uint32_t)cs.action, cs.avail_in), hcomb(cs.avail_out, cs.null_in * 4 + cs.null_out * 2 + cs.null_zero + (uint64_t)(cs.reserved + 1) * 8)));
+	h.hhash = hcomb(h.hhash, hcomb(hcomb((uint64_t)(uint32_t)cs.action, cs.avail_in), hcomb(cs.avail_out, cs.null_in * 4 + cs.null_out * 2 + cs.null_zero_in + cs.null_zero_out * 1024 + (uint64_t)(cs.reserved + 1) * 8)));
 	Obs o = do_call(h, cs);
 	if (g_verbose) fprintf(stderr, "    %s action=%d in=%zu out=%zu -> %s (-%zu, +%zu) state %s", cs.what, cs.action, cs.avail_in, cs.avail_out, drv::retname(o.ret), o.d_in, o.d_out, ms_names[h.m.st]);
 	judge(h, cs, o);
@@ -436,6 +454,8 @@ static bool step(Case &c, Harness &h) {
 	Work &w = h.w; Model &m = h.m;
 	uint8_t b = c.byte();
 	if (m.st == M_NOT_INIT && b < 110) return do_init(h, "init");
+	// END / ERROR are absorbing: a few calls there are enough, then start over on the same handle
+	if ((m.st == M_END || m.st == M_ERROR) && b < 70) b = 220;
 	const size_t remaining = h.pos < w.feed.size() ? w.feed.size() - h.pos : 0;
 	auto draw_in = [&]() -> size_t { uint8_t k = c.byte(); size_t n; if (k < 100) n = c.small(300); else if (k < 130) n = 0; else if (k < 200) n = c.u16(); else n = SIZE_MAX;
 		if (w.kind == K_MICRO_ENC && n == 0 && k >= 8) n = SIZE_MAX; return std::min(n, remaining); };
@@ -443,7 +463,7 @@ static bool step(Case &c, Harness &h) {
 		if (w.kind == K_MICRO_ENC && k >= 8) n += 6; return n; };
 	// a supported action other than RUN (FINISH for the many coders that have nothing else)
 	auto nonrun = [&]() -> int { int cand[4], n = 0; for (int a = 1; a <= 4; ++a) if (w.sup[a]) cand[n++] = a; return n ? cand[c.u(n)] : LZMA_FINISH; };
-	CallSpec cs; cs.null_zero = (b & 1) && c.chance(64);
+	CallSpec cs; { uint8_t nz = c.byte(); cs.null_zero_in = nz >= 216; cs.null_zero_out = nz >= 196 && nz < 236; }
 	auto legal = [&](bool want_nonrun) {
 		if (m.st == M_INACT) { cs.action = m.act; cs.avail_in = m.avail; cs.avail_out = draw_out(); cs.what = "continue"; return; }
 		cs.avail_in = draw_in(); cs.avail_out = draw_out();
@@ -461,10 +481,18 @@ static bool step(Case &c, Harness &h) {
 	else if (b < 186) { legal(true); if (m.st == M_INACT) { int cand[5], n = 0; for (int a = 0; a <= 4; ++a) if (w.sup[a] && a != m.act) cand[n++] = a; if (n) { cs.action = cand[c.u(n)]; cs.what = "change_action"; } } }
 	else if (b < 198) { legal(false); if (c.flag()) { cs.null_in = true; if (!cs.avail_in) cs.avail_in = 1 + c.u(8); } else { cs.null_out = true; if (!cs.avail_out) cs.avail_out = 1 + c.u(8); } cs.what = "null_buffer"; }
 	else if (b < 208) { legal(false); cs.reserved = c.u(9); cs.what = "reserved"; }
-	else if (b < 216) { lzma_end(&h.s); if (h.s.internal != NULL) violation("C11:end-internal", "strm->internal is not NULL after lzma_end()"); h.log += ",\"end\""; h.hhash = hcomb(h.hhash, 0x2222); count("lzma_end_mid_history"); m = Model(); return true; }
-	else if (b < 228) return do_init(h, "reinit");
+	else if (b < 216) { lzma_end(&h.s); if (g_verbose) fprintf(stderr, "    lzma_end\n"); if (h.s.internal != NULL) violation("C11:end-internal", "strm->internal is not NULL after lzma_end()"); h.log += ",\"end\""; h.hhash = hcomb(h.hhash, 0x2222); count("lzma_end_mid_history"); m = Model(); return true; }
+	else if (b < 228) {
+		// known defect: re-initialising a threaded encoder without lzma_end() can lose a worker thread (hang)
+		if (w.kind == K_MT_ENC && m.st != M_NOT_INIT) { if (known_finding("C11:mt-encoder-reinit-lost-worker")) { lzma_end(&h.s); return do_init(h, "end+reinit"); }
+			g_wd_sig.store("C11:mt-encoder-reinit-lost-worker"); count("mt_encoder_reinit_without_end"); }
+		return do_init(h, "reinit"); }
 	else if (b < 234) { h.s.total_in = c.u64(); h.s.total_out = c.u64(); h.log += ",\"set_totals\""; h.hhash = hcomb(h.hhash, 0x3333); count("application_modified_totals"); return true; }
 	else legal(true);
+	// known defect: NULL next_in with avail_in == 0 (legal) makes the LZMA decoder compute NULL + 0
+	if (cs.null_zero_in && cs.avail_in == 0 && !cs.null_in && !w.enc && w.kind != K_INDEX_DEC && w.kind != K_FILEINFO_DEC && known_finding("C11:null-next-in-zero-length-ub")) cs.null_zero_in = false;
+	if (cs.avail_in == 0 && cs.null_zero_in && !cs.null_in) count("legal_null_next_in_zero_length");
+	if (cs.avail_out == 0 && cs.null_zero_out && !cs.null_out) count("legal_null_next_out_zero_length");
 	one_call(h, cs);
 	return true;
 }
@@ -492,6 +520,7 @@ extern "C" size_t vfresh_max(void) { return 360; }
 
 extern "C" int LLVMFuzzerTestOneInput(const uint8_t *data, size_t size) {
 	begin_case("C11");
+	g_wd_sig.store("C11:mt-hang");
 	Case c(data, size);
 	Work w;
 	if (!make_work(c, w)) { count("environment_alloc_cap"); return 0; }
@@ -500,9 +529,9 @@ extern "C" int LLVMFuzzerTestOneInput(const uint8_t *data, size_t size) {
 	h.base_desc = "{" + w.desc + ",\"valid\":" + (w.valid ? "true" : "false") + ",\"buffers\":\"" + (h.exact ? "exact_heap_blocks" : "guard_bytes") + "\",\"history\":[\"start\"";
 	set_desc(h.base_desc);
 	bool alive = true;
-	if (!c.chance(56)) alive = do_init(h, "init"); else count("history_starts_before_init");
+	if (c.byte() < 200) alive = do_init(h, "init"); else count("history_starts_before_init");
 	unsigned nsteps = 1 + c.u(64);
-	for (unsigned i = 0; alive && i < nsteps; ++i) alive = step(c, h);
+	for (unsigned i = 0; alive && i < nsteps && !c.empty(); ++i) alive = step(c, h);   // an exhausted case ends the drawn history (the completion phase follows)
 	if (alive) completion(h);
 	// whatever was produced is a prefix of the right answer
 	if (alive && !w.enc && w.valid && (h.out.size() > w.expect.size() || (h.out.size() && memcmp(h.out.data(), w.expect.data(), h.out.size()) != 0)))
